@@ -205,3 +205,25 @@ func H18_str() {
 	sameness(list1(x), list1(y), false)
 	sv.Reach("compared")
 }
+
+// H18_canonical_nummap: the same for maps keyed by numbers, with key sets that
+// mix whole and fractional (and huge) numbers - whatever order the renderer
+// sorts entries by has to be a total one.
+func H18_canonical_nummap() {
+	sets := [][3]float64{{9, 10, 10.5}, {-1, -2, -1.5}, {1, 2, 3}, {0.5, 1.5, 2}, {1e20, 9, 10}, {100, 20, 3.25}}
+	ks := sets[sv.Choice("keys", len(sets))]
+	mt := types.Map(types.Num, types.Num).Map()
+	m1, m2 := val.Map(mt).Map(), val.Map(mt).Map()
+	perm := [][3]int{{0, 1, 2}, {0, 2, 1}, {1, 0, 2}, {1, 2, 0}, {2, 0, 1}, {2, 1, 0}}[sv.Choice("insertion-order", 6)]
+	v := sv.Float64("v")
+	for i := 0; i < 3; i++ {
+		m1.Put(val.Num(ks[i]), val.Num(v))
+		m2.Put(val.Num(ks[perm[i]]), val.Num(v))
+	}
+	sv.MapOrder(1)
+	s1 := m1.Vl().String()
+	s2 := m2.Vl().String()
+	sv.MapOrder(0)
+	sv.Assert("map-rendering-ignores-insertion-and-iteration-order", sv.StrEq(s1, s2))
+	sv.Reach("compared")
+}
